@@ -11,7 +11,8 @@ mkdir -p "${VP_WORK:-/tmp/vp-work}/logs"
 python3 vp/gen_manifest.py >/dev/null
 git -C /verif diff --quiet -- MANIFEST.json 2>/dev/null || echo "note: MANIFEST.json regenerated"
 # native sanity tests of the reference models against the real code (not a verdict)
-out=$(cd harness && RUSTFLAGS="--cfg funbiscuit_embedded_cli_rs_verif" timeout 900 cargo test --offline --test native_models --target-dir "${VP_WORK:-/tmp/vp-work}/t-native" 2>&1)
+out=$(cd harness && RUSTFLAGS="--cfg funbiscuit_embedded_cli_rs_verif" timeout 900 cargo test --offline --test native_models --test native_defects --target-dir "${VP_WORK:-/tmp/vp-work}/t-native" 2>&1)
 echo "$out" | grep -E "^test |test result" || true
+if echo "$out" | grep -q "FAILED"; then echo "native tests failed"; echo "$out" | tail -30; exit 1; fi
 echo "$out" | grep -q "test result: ok" || { echo "native model tests failed"; echo "$out" | tail -30; exit 1; }
 echo "setup ok"
